@@ -142,6 +142,11 @@ func (s *srcB) add(text string) {
 func (s *srcB) cur() int { return s.line + 1 }
 
 func (p *c03) Run(c fw.Case, r *fw.Rec) {
+	pairWorker(p.Env, p.Id, c, r, p.build(c, r))
+}
+
+// build generates the experiment of one case.
+func (p *c03) build(c fw.Case, r *fw.Rec) pairBuild {
 	rnd := p.rnd(c.Idx)
 	src := &srcB{}
 	var want strings.Builder
@@ -459,11 +464,11 @@ func (p *c03) Run(c fw.Case, r *fw.Rec) {
 	}
 	src.add("func main() {\n" + mainBody.String() + "}\n")
 	exp := want.String()
-	pairWorker(p.Env, p.Id, c, r, pairBuild{
+	return pairBuild{
 		XGo:    map[string]string{"main.xgo": src.b.String(), "helper.go": c03Helper},
 		Expect: &exp,
 		Info:   info,
-	})
+	}
 }
 
 // succShown renders the success results of a `?` scenario the way %#v prints them.
